@@ -783,9 +783,12 @@ class Molecule(nx.Graph):
         # order of the nodes is coupled to the order of the atoms in the output
         # PDB
         ignore_attrs = ('position', 'chain', 'graph', 'mapping_weights')
+        # The parts of the metadata that end up in the written topology.
+        written_meta = ('define', 'pre_section_lines', 'post_section_lines')
         return (
             self.nrexcl == other.nrexcl and
             self._force_field == other._force_field and
+            all(self.meta.get(key) == other.meta.get(key) for key in written_meta) and
             self.same_nodes(other, ignore_attr=ignore_attrs) and
             self.same_edges(other) and
             self.same_interactions(other)
